@@ -19,7 +19,7 @@ Requirements for the change:
 1. It must break the property for SOME inputs, but need something specific to manifest: an unusual input, a boundary/tie case, a particular multi-step sequence of operations, a rare branch, or two cooperating sites that each look fine alone. Do NOT make a change that ordinary use or any existing test exposes at once.
 2. The code must still import, and the existing tests that exercise the touched files must still pass (run the relevant test files under {wt}/tests - find them with grep - and confirm they pass with your change; the full suite takes too long, run the relevant subset).
 3. Keep it small (a few lines), plausible as a human mistake or over-eager refactor/optimisation, in the non-test source only (under src/porepy). No new files in src, no changes to tests.
-4. Write a demonstration script {wt}/demo_{pid}.py (plain Python, exit code 1 and a printed message when the property is violated, exit code 0 when it holds) that FAILS with your change and PASSES on the unmodified code. Verify both: run it with your change, then `git -C {wt} stash`, run again, `git -C {wt} stash pop`.
+4. Write a demonstration script {wt}/demo_{pid}.py (plain Python, exit code 1 and a printed message when the property is violated, exit code 0 when it holds) that FAILS with your change and PASSES on the unmodified code. Verify both: run it with your change, then run it on the unmodified code. Do NOT use `git stash` (the stash is shared between worktrees and other people work in sibling worktrees): use `git -C {wt} diff > /tmp/{pid}_change.patch; git -C {wt} apply -R /tmp/{pid}_change.patch; <run demo>; git -C {wt} apply /tmp/{pid}_change.patch`.
 5. Leave your change applied but UNCOMMITTED in the worktree (so `git -C {wt} diff` shows it). Do not commit.
 
 Final answer: report (a) the diff (git diff output), (b) which inputs/sequence are needed for it to manifest and why ordinary tests miss it, (c) the exact commands you ran to confirm tests pass and the demo fails/passes, with their outcomes.""")
